@@ -53,6 +53,43 @@ Models ==
       [nodes |-> <<Nd("Expand", <<>>, <<"x", "shp">>, <<"e">>), Nd("Concat", <<AI("axis", 0)>>, <<"x">>, <<"c">>), Nd("Add", <<>>, <<"c", "v">>, <<"s">>)>>,
        inputs |-> <<InD("x", <<DSym, DFix(3)>>)>>, outputs |-> <<"e", "c", "s">>,
        inits |-> [shp |-> T("i64", <<3>>, <<2, 1, 3>>), v |-> T("f32", <<3>>, <<100, 200, 300>>)]],
+    \* a convolution with ONE output position per channel: for batch 1 the output has exactly the broadcast bias's shape
+    conv_point_init |->
+      [nodes |-> <<Nd("Conv", <<>>, <<"x", "w", "b">>, <<"y">>), Nd("Conv", <<>>, <<"x2", "w2", "b">>, <<"y2">>)>>,
+       inputs |-> <<InD("x", <<DSym, DFix(1), DFix(2)>>), InD("x2", <<DSym, DFix(1), DFix(2), DFix(2)>>)>>, outputs |-> <<"y", "y2">>,
+       inits |-> [w |-> T("f32", <<2, 1, 2>>, <<1, -1, 2, 3>>), w2 |-> T("f32", <<2, 1, 2, 2>>, <<1, -1, 2, 3, 0, 1, -2, 1>>), b |-> T("f32", <<2>>, <<10, 20>>)]],
+    \* Gemm with alpha, beta # 1 and a C weight that needs no broadcasting for batch 1; MatMul on a weight
+    gemm_scaled_init |->
+      [nodes |-> <<Nd("Gemm", <<AF("alpha", Fin(2)), AF("beta", Fin(3))>>, <<"x", "w", "c3">>, <<"g1">>),
+                   Nd("Gemm", <<AF("alpha", Fin(2)), AF("beta", Fin(3))>>, <<"x", "w", "c13">>, <<"g2">>),
+                   Nd("Gemm", <<AF("alpha", Fin(-1)), AF("beta", Fin(2)), AI("transA", 1)>>, <<"w", "w", "w">>, <<"g3">>),
+                   Nd("MatMul", <<>>, <<"x", "w">>, <<"mm">>)>>,
+       inputs |-> <<InD("x", <<DSym, DFix(3)>>)>>, outputs |-> <<"g1", "g2", "g3", "mm">>,
+       inits |-> [w |-> T("f32", <<3, 3>>, <<1, 0, -1, 2, 1, 0, 0, 3, 1>>), c3 |-> T("f32", <<3>>, <<5, -6, 7>>), c13 |-> T("f32", <<1, 3>>, <<-1, 2, -3>>)]],
+    \* elementwise operators whose weight operand has exactly the other operand's shape (no broadcast copy is needed for batch 1)
+    elementwise_same_shape |->
+      [nodes |-> <<Nd("Add", <<>>, <<"x", "v">>, <<"a">>), Nd("Mul", <<>>, <<"v", "x">>, <<"m">>), Nd("Sub", <<>>, <<"v", "x">>, <<"s">>),
+                   Nd("Relu", <<>>, <<"v">>, <<"r">>), Nd("Abs", <<>>, <<"v">>, <<"ab">>), Nd("Add", <<>>, <<"v", "v">>, <<"vv">>),
+                   Nd("Relu", <<>>, <<"x">>, <<"rx">>), Nd("Sub", <<>>, <<"x", "x">>, <<"z">>)>>,
+       inputs |-> <<InD("x", <<DSym, DFix(3)>>)>>, outputs |-> <<"a", "m", "s", "r", "ab", "vv", "rx", "z">>,
+       inits |-> [v |-> T("f32", <<1, 3>>, <<-1, 2, -3>>)]],
+    \* shape operators may hand out views of a weight; the operators applied to those views must not write through them
+    views_of_weight |->
+      [nodes |-> <<Nd("Reshape", <<>>, <<"v", "shp3">>, <<"a">>), Nd("Relu", <<>>, <<"a">>, <<"ra">>),
+                   Nd("Squeeze", <<>>, <<"v">>, <<"b">>), Nd("Abs", <<>>, <<"b">>, <<"ab">>),
+                   Nd("Flatten", <<>>, <<"v">>, <<"c">>), Nd("Add", <<>>, <<"c", "x">>, <<"cx">>),
+                   Nd("Transpose", <<>>, <<"w">>, <<"d">>), Nd("Relu", <<>>, <<"d">>, <<"rd">>),
+                   Nd("Unsqueeze", <<>>, <<"v", "ax0">>, <<"u">>), Nd("Mul", <<>>, <<"u", "u">>, <<"uu">>),
+                   Nd("Slice", <<>>, <<"w", "st", "en">>, <<"sl">>), Nd("Abs", <<>>, <<"sl">>, <<"asl">>),
+                   Nd("Gather", <<>>, <<"w", "idx">>, <<"g">>), Nd("Relu", <<>>, <<"g">>, <<"rg">>),
+                   Nd("Expand", <<>>, <<"v", "shp13">>, <<"e">>), Nd("Relu", <<>>, <<"e">>, <<"re">>),
+                   Nd("Concat", <<AI("axis", 0)>>, <<"v">>, <<"cc">>), Nd("Abs", <<>>, <<"cc">>, <<"acc">>),
+                   Nd("Sub", <<>>, <<"x", "a">>, <<"xa">>)>>,
+       inputs |-> <<InD("x", <<DSym, DFix(3)>>)>>,
+       outputs |-> <<"ra", "ab", "cx", "rd", "uu", "asl", "rg", "re", "acc", "xa", "a", "b", "d", "sl", "e">>,
+       inits |-> [v |-> T("f32", <<1, 3>>, <<-1, 2, -3>>), w |-> T("f32", <<3, 2>>, <<1, -2, 3, -4, 5, -6>>), shp3 |-> T("i64", <<1>>, <<3>>),
+                  ax0 |-> T("i64", <<1>>, <<0>>), st |-> T("i64", <<1>>, <<1>>), en |-> T("i64", <<1>>, <<3>>), idx |-> T("i64", <<2>>, <<2, 0>>),
+                  shp13 |-> T("i64", <<2>>, <<1, 3>>)]],
     const_scaler_gemm |->
       [nodes |-> <<Nd("Constant", <<AT("value", [dt |-> "f32", shape |-> <<3>>, data |-> <<1, 2, 3>>])>>, <<>>, <<"k">>),
                    Nd("Scaler", <<AFs("offset", <<1, 2, 3>>), AFs("scale", <<2, 2, 2>>)>>, <<"x">>, <<"sc">>),
